@@ -549,8 +549,8 @@ func (g *G) fundef(d int, gen bool) string {
 			if g.pick(2) == 0 {
 				cond = "lt(" + w + ", 3)"
 			}
-			if g.pick(2) == 0 {
-				// ... or the tail is a plain counting loop: its value is the last assignment
+			if info.ret == tInt && g.pick(2) == 0 {
+				// ... or the tail is a plain counting loop: its value is the last assignment (an int)
 				body += "\n" + w + " = 0\nwhile " + cond + " " + w + " = " + w + " + 1"
 			} else {
 				body += "\n" + w + " = 0\nwhile " + cond + " {\n" + w + " = " + w + " + 1\nif " + g.expr(tBool, d) + " return " + g.expr(info.ret, d) + "\n}"
@@ -655,6 +655,13 @@ func (g *G) Template() []string {
 			"if " + cond + " {\n" + e() + "\n}",
 			"zq = " + e() + "\nif " + cond + " zq = zq + 1",
 			"while " + cond + " return " + e(),
+			// loops that run zero times on one of the calls; the body's value is a variable, a literal or on the stack
+			"zi = 0\nif " + cond + " zi = 3\nwhile zi < 3 zi = zi + 1",
+			"zi = 0\nif " + cond + " zi = 3\nwhile lt(zi, 3) {\nzi = zi + 1\nzi\n}",
+			"zi = 0\nif " + cond + " zi = 3\nwhile zi < 3 {\nzi = zi + 1\n" + n(g.pick(9)) + "\n}",
+			"zi = 0\nif " + cond + " zi = 3\nwhile zi < 3 {\nzi = zi + 1\nzi * " + e() + "\n}",
+			"zn = 3\nif " + cond + " zn = 0\nfor zv <- fromto(0, zn) zv",
+			"zn = 3\nif " + cond + " zn = 0\nfor zv <- fromto(0, zn) zq = zv",
 		}
 		tail := tails[g.pick(len(tails))]
 		pre := ""
